@@ -77,6 +77,14 @@ Definition on_head (f : bytes -> bytes) (o : bytes) : bytes :=
   | _ => let (h, t) := split_dot o in f h ++ t
   end.
 
+(* compile_stages.go RetainParams.compile sorts the retained ids bytewise *)
+Fixpoint insert_sorted (x : bytes) (l : list bytes) : list bytes :=
+  match l with
+  | [] => [x]
+  | y :: r => if bytes_ltb y x then y :: insert_sorted x r else x :: l
+  end.
+Definition sort_bytes (l : list bytes) : list bytes := fold_right insert_sorted [] l.
+
 Section Rename.
 Variable rho : renaming.
 
@@ -124,7 +132,7 @@ Definition rename_stage (s : stage) : stage :=
   let C := st_id s in
   mk_stage (ren1 (rn_callable rho) C) (map (rename_in_param C) (st_ins s))
            (map (rename_out_param C) (st_outs s)) (st_split s) (st_chunk_ins s) (st_chunk_outs s)
-           (map (ren2 (rn_out rho) C) (st_retain s)) (st_src s) (st_resources s).
+           (sort_bytes (map (ren2 (rn_out rho) C) (st_retain s))) (st_src s) (st_resources s).
 
 Definition rename_pipeline (p : pipeline) : pipeline :=
   let P := pl_id p in
